@@ -371,6 +371,12 @@ func (set *Set) add(hosts ...*Host) {
 		return
 	}
 	for _, host := range hosts {
+		// the address may already be known as another host (e.g. with another
+		// type), which must not stay in the healthy hosts.
+		if old, ok := set.all[host.Addr]; ok && old != host {
+			delete(set.healthyMain, old.Addr)
+			delete(set.healthyBackup, old.Addr)
+		}
 		set.all[host.Addr] = host
 	}
 	set.addToHealthy(hosts...)
@@ -388,6 +394,12 @@ func (set *Set) remove(hosts ...*Host) {
 		return
 	}
 	for _, host := range hosts {
+		// the member may be another host than the given one (e.g. with another
+		// type), remove it from the healthy hosts whatever its type is.
+		if old, ok := set.all[host.Addr]; ok {
+			delete(set.healthyMain, old.Addr)
+			delete(set.healthyBackup, old.Addr)
+		}
 		delete(set.all, host.Addr)
 		host.markRemoved()
 	}
@@ -401,7 +413,8 @@ func (set *Set) MarkHostHealthy(host *Host) bool {
 	}
 	set.Lock()
 	defer set.Unlock()
-	if _, ok := set.all[host.Addr]; !ok {
+	// the address may be taken by another host in the meantime.
+	if cur, ok := set.all[host.Addr]; !ok || cur != host {
 		return false
 	}
 	set.addToHealthy(host)
@@ -415,7 +428,8 @@ func (set *Set) MarkHostUnhealthy(host *Host) bool {
 	}
 	set.Lock()
 	defer set.Unlock()
-	if _, ok := set.all[host.Addr]; !ok {
+	// the address may be taken by another host in the meantime.
+	if cur, ok := set.all[host.Addr]; !ok || cur != host {
 		return false
 	}
 	set.removeFromHealthy(host)
